@@ -219,7 +219,8 @@ Section Model.
 
   (* mesh/triangulation.py mapper_grids_from (Delaunay / Voronoi), default preloads:
        data' = relocated_grid_from(data); mesh' = relocated_mesh_grid_from(grid = data', mesh)
-     border_relocator = None leaves both unchanged (mesh/abstract.py) *)
+     border_relocator = None leaves both unchanged (mesh/abstract.py).
+     mesh/rectangular.py mapper_grids_from relocates the data grid only (= relocated_grid_from; observed as KReloc) *)
   Definition mapper_grids_from (relocator : option (mask * list nat)) (data mesh_grid : list pt)
     : res (list pt * list pt) :=
     match relocator with
